@@ -891,6 +891,30 @@ def clampf(p, lo, hi):
                          nonneg=(lo_k is not None and lo_k >= 0), pos=(lo_k is not None and lo_k > 0)))
 
 
+def cast(p, kind):
+    """The value a tensor of another element type holds after `p` is written into it: truncation toward zero ("int"),
+    != 0 ("bool"), rounding to single precision ("f32").  Exact on constants; otherwise an atom whose numeric value is
+    computed from its argument (so a refutation through it is checked numerically), opaque to the normal form."""
+    p = to_P(p)
+    if p.is_const() and not isinstance(p.const_value(), complex):
+        v = float(p.const_value())
+        if kind == "int":
+            return to_P(int(math.trunc(v)))
+        if kind == "bool":
+            return to_P(1 if v != 0 else 0)
+        import numpy as _np
+        return to_P(float(_np.float32(v)))
+    at = _single_atom(p)
+    if at is not None and at.kind == "Cast" and at.args[1] == kind:
+        return p
+    # truncation and rounding are odd functions, != 0 is even: one canonical sign per argument
+    q = -p
+    if str(q.key()) < str(p.key()):
+        inner = P.of_atom(_mk("Cast", (q.key(), kind), args=(q, kind), real=True, name="%s(%s)" % (kind, q.short(30))))
+        return inner if kind == "bool" else -inner
+    return P.of_atom(_mk("Cast", (p.key(), kind), args=(p, kind), real=True, name="%s(%s)" % (kind, p.short(30))))
+
+
 def _loglin_terms(p):
     """Decompose a real polynomial into [(q, generator Atom or None)] if it is a
     rational-linear combination of generator atoms (par / Lg / At / real UF)."""
@@ -1368,6 +1392,11 @@ def _datom(at, x, memo):
         if du.t:
             raise Unmodelled("derivative of a clamped value")
         r = ZERO
+    elif k == "Cast":
+        du = diff(at.args[0], x, memo)
+        if du.t:
+            raise Unmodelled("derivative of a value cast to another element type")
+        r = ZERO
     else:
         raise Unmodelled("derivative of atom kind %s" % k)
     memo[at.id] = r
@@ -1422,6 +1451,16 @@ def _evatom(at, env, cache):
         r = math.atan2(y, x)
     elif k == "Abs":
         r = abs(evalf(at.args[0], env, cache))
+    elif k == "Cast":
+        r = evalf(at.args[0], env, cache)
+        r = r.real if isinstance(r, complex) else r
+        if at.args[1] == "int":
+            r = float(math.trunc(r)) if r == r and abs(r) != float("inf") else r
+        elif at.args[1] == "bool":
+            r = 1.0 if r != 0 else 0.0
+        else:
+            import numpy as _np
+            r = float(_np.float32(r))
     elif k == "Cl":
         r = evalf(at.args[0], env, cache)
         r = r.real if isinstance(r, complex) else r
